@@ -938,6 +938,10 @@ pub async fn run_c14(w: &mut World, m: &mut Mon, r: &mut R, t: &Twin) {
             if o.ok() {
                 m.r.violate("C14", "C14/matrix/borrow-against-reduce-only-collateral-accepted", "the account's only collateral is in a reduce-only bank".into());
             }
+            // the program's own three valuations of the account while its collateral is reduce-only
+            // (judged by the health-pulse monitor: maintenance and equity must keep counting it)
+            let pi = ix::pulse_health(w.accts[t.acct0].key, w.risk_metas(t.acct0, None, None));
+            let _ = w.exec(m, &[pi], &[]).await;
             let after = w.probe(m, &[lq_ix], &[&lk]).await;
             if !before.ok() && before.custom_code() == Some(err::HEALTHY_ACCOUNT) && after.ok() {
                 m.r.violate("C14", "C14/matrix/reduce-only-collateral-not-counted-for-liquidation", "account healthy before the bank became reduce-only is now liquidatable".into());
